@@ -189,6 +189,24 @@ void case_c17(const GenParams &gp, CaseOut &out) {
       if (injectable(c.call)) pts.push_back(Point{r0.trace_ops[i].first, r0.trace_ops[i].second, c.call, c.nth});
   out.fault_points += (long)pts.size();
   Rng r(mix64(gp.seed, (uint64_t)gp.run * 977 + 5));
+  // an operation that issues the same call very often (e.g. unbuffered byte-wise I/O in some tree) is sampled:
+  // the first eight, the last four and four random ones of each (operation, kind); the evidence then shows
+  // fault_points_executed < fault_points_total and the enumeration is not called complete
+  {
+    std::map<std::pair<long, int>, std::vector<size_t>> groups;
+    for (size_t i = 0; i < pts.size(); i++) groups[{(long)pts[i].task * 100000 + pts[i].op, pts[i].call}].push_back(i);
+    std::vector<bool> keep(pts.size(), true);
+    for (auto &kv : groups) {
+      std::vector<size_t> &g = kv.second;
+      if (g.size() <= 16) continue;
+      for (size_t k = 8; k + 4 < g.size(); k++) keep[g[k]] = false;
+      for (int k = 0; k < 4; k++) keep[g[8 + r.below(g.size() - 12)]] = true;
+    }
+    std::vector<Point> kept;
+    for (size_t i = 0; i < pts.size(); i++)
+      if (keep[i]) kept.push_back(pts[i]);
+    pts.swap(kept);
+  }
   auto attach = [&](Plan &p, const Point &pt, Rng &rr, int pick_flavour) {
     std::vector<const Flavour *> fl;
     for (const Flavour &f : FLAVOURS)
